@@ -23,6 +23,7 @@ class C05(Harness):
         "forecast-is-regressor-output",
         "recursive-feedback",
         "index",
+        "moving-cutoff-window",
         "dispatch",
         "unknown-rejected",
     )
@@ -46,6 +47,9 @@ class C05(Harness):
                         if sci == "time-series-regressor" and (exog or K > 2):
                             continue
                         out.append({"name": "%s-%s-%s-k%d" % (strat, "tab" if sci[0] == "t" and sci[1] == "a" else "tsr", "exog" if exog else "noexog", K), "kind": "reduce", "strategy": strat, "scitype": sci, "exog": exog, "K": K, "N": b["n_max"], "cost": K * (2 if exog else 1)})
+        # integer-valued series (counts): the regressors' outputs are still arbitrary reals
+        for strat in ("direct", "multioutput", "recursive", "dirrec"):
+            out.append({"name": "%s-tab-noexog-int-k2" % strat, "kind": "reduce", "strategy": strat, "scitype": "tabular-regressor", "exog": False, "K": 2, "N": min(b["n_max"], 5), "int_series": True, "cost": 2})
         out.append({"name": "dispatch", "kind": "dispatch", "cost": 1})
         return out
 
@@ -61,10 +65,12 @@ class C05(Harness):
         hs = fresh_ints(ctx, "h", K)
         increasing(ctx, hs, lo=1)
         ctx.assume(hs[-1] <= 4)
-        inp = {"n": nn, "wl": int(wl), "fh": [int(h) for h in hs], "s0": ctx.fresh_int("s0"), "y": fresh_reals(ctx, "y", nn)}
+        inp = {"n": nn, "wl": int(wl), "fh": [int(h) for h in hs], "s0": ctx.fresh_int("s0"), "y": fresh_ints(ctx, "y", nn) if cell.get("int_series") else fresh_reals(ctx, "y", nn)}
         if cell["exog"]:
             inp["x"] = fresh_reals(ctx, "x", nn)
             inp["xf"] = fresh_reals(ctx, "xf", inp["fh"][-1])
+        else:
+            inp["u"] = (fresh_ints if cell.get("int_series") else fresh_reals)(ctx, "u", inp["fh"][-1] + 1)  # later observations for the moving-cutoff passes
         return inp
 
     # ------------------------------------------------------------------
@@ -131,7 +137,28 @@ class C05(Harness):
             pred = f.predict(fh, X=Xf)
         else:
             pred = f.predict()
-        return {"rejected": False, "fits": fits, "index": L(pred.index), "values": L(pred.values), "cls": type(f).__name__}
+        out = {"rejected": False, "fits": fits, "index": L(pred.index), "values": L(pred.values), "cls": type(f).__name__}
+        if not cell["exog"]:
+            # moving cutoff over later observations, twice over the same stretch (the second pass walks a cutoff that
+            # lies before the end of the data the forecaster has memorised): regressors must see the window that ends
+            # at the cutoff, never later observations
+            sp = W.load("sktime.forecasting.model_selection._split")
+            u = inp["u"]
+            yb = pd.Series(u, index=pd.RangeIndex(s0 + n, s0 + n + len(u)))
+            passes = []
+            for _ in range(2):
+                cv = sp.SlidingWindowSplitter(fh=fh, window_length=1, step_length=1, start_with_window=False)
+                r = f.update_predict(yb, cv, update_params=False)
+                if len(inp["fh"]) == 1:
+                    passes.append([{"cutoff": lab - inp["fh"][0], "idx": [lab], "vals": [v]} for lab, v in zip(L(r.index), L(r.values))])
+                elif hasattr(r, "columns"):
+                    passes.append([{"cutoff": S(c), "idx": None, "vals": L(r.iloc[:, j].values), "rows": L(r.index)} for j, c in enumerate(r.columns)])
+                else:
+                    passes.append([{"cutoff": None, "idx": L(r.index), "vals": L(r.values)}])
+            out["passes"] = passes
+            out["cutoff_after"] = S(f.cutoff)
+            out["n_fits_after"] = len(log)
+        return out
 
     def _dispatch(self, W, red, inp):
         from sklearn.base import BaseEstimator, RegressorMixin
@@ -254,6 +281,8 @@ class C05(Harness):
         xwin = list(x[n - wl :]) if exog else []
         vals = out["values"]
         nf = lambda k: (wl * (2 if exog else 1)) + k  # noqa
+        if "passes" in out:
+            self._moving(P, inp, out, cell)
         if strat == "direct":
             for k in range(K):
                 P.eq("forecast-is-regressor-output", vals[k], self._uf("reg%d_%d" % (k + 1, nf(0)), win + xwin))
@@ -277,6 +306,46 @@ class C05(Harness):
                 o = self._uf("reg%d_%d" % (k + 1, wl + k), seq)
                 P.eq("recursive-feedback", vals[k], o)
                 seq.append(o)
+
+    def _expected(self, strat, fh, wl, win):
+        """forecasts (no exogenous data) when the last window is `win`"""
+        K, hK = len(fh), fh[-1]
+        if strat == "direct":
+            return [self._uf("reg%d_%d" % (k + 1, wl), win) for k in range(K)]
+        if strat == "multioutput":
+            return [self._uf("reg1_out%d_%d" % (k, wl), win) for k in range(K)]
+        if strat == "recursive":
+            seq, outs = list(win), []
+            for i in range(hK):
+                o = self._uf("reg1_%d" % wl, seq[i : i + wl])
+                outs.append(o)
+                seq.append(o)
+            return [outs[h - 1] for h in fh]
+        seq, res = list(win), []
+        for k in range(K):
+            o = self._uf("reg%d_%d" % (k + 1, wl + k), seq)
+            res.append(o)
+            seq.append(o)
+        return res
+
+    def _moving(self, P, inp, out, cell):
+        n, wl, fh, s0 = inp["n"], inp["wl"], inp["fh"], inp["s0"]
+        data = list(inp["y"]) + list(inp["u"])
+        K = len(fh)
+        p1, p2 = out["passes"]
+        P.check("moving-cutoff-window", len(p1) >= 1 and len(p1) == len(p2), {"n1": len(p1), "n2": len(p2)})
+        P.check("moving-cutoff-window", out["n_fits_after"] == len(out["fits"]), {"what": "update_params=False refitted"})
+        P.eq("moving-cutoff-window", out["cutoff_after"], s0 + n - 1, {"what": "cutoff restored"})
+        for pi, ps in enumerate((p1, p2)):
+            for i, rec in enumerate(ps):
+                pos = n - 1 + i  # the splitter starts with an empty window: the first moving cutoff is the fitted one
+                if rec["cutoff"] is not None:
+                    P.eq("moving-cutoff-window", rec["cutoff"], s0 + pos, {"pass": pi, "what": "cutoff"})
+                exp = self._expected(cell["strategy"], fh, wl, data[pos + 1 - wl : pos + 1])
+                got = [v for v in rec["vals"] if not (v is None or (isinstance(v, float) and v != v))]  # frame columns are NaN off their own labels
+                P.check("moving-cutoff-window", len(got) == K, {"pass": pi})
+                for v, e in zip(got, exp):
+                    P.eq("moving-cutoff-window", v, e, {"pass": pi, "cutoff_pos": pos})
 
     def signature(self, label, inp, cell):
         return "%s/%s" % (cell["name"].rsplit("-k", 1)[0], label)
